@@ -127,7 +127,7 @@ fn cells(v: &[SqliteValue]) -> Vec<String> {
 }
 
 fn emit_count(id: &str) -> usize {
-    EMITS.lock().unwrap().iter().filter(|(n, d)| n == "matcher.batch_done" && d == id).count()
+    vh::vnode::emit_count("matcher.batch_done", id)
 }
 
 async fn barrier(sub: &Sub) {
@@ -415,7 +415,7 @@ fn c11(cli: &Cli) {
             v
         })
         .collect();
-    let deadline = Instant::now() + Duration::from_secs(cli.tier.pick(55, 1700));
+    let deadline = Instant::now() + Duration::from_secs(cli.tier.pick(300, 1700));
     let via_counts: [std::sync::atomic::AtomicU64; 3] = [const { std::sync::atomic::AtomicU64::new(0) }; 3];
     let execs_a = std::sync::atomic::AtomicU64::new(0);
     let steps_a = std::sync::atomic::AtomicU64::new(0);
@@ -739,36 +739,45 @@ fn c14(cli: &Cli) {
         let n = s.len();
         cases.push(Case14 { seq: s.clone(), remote: Some((0..n).rev().map(|i| vec![i]).collect()), cold: true });
     }
-    let deadline = Instant::now() + Duration::from_secs(cli.tier.pick(55, 1700));
-    let mut execs = 0u64;
-    let mut capped = None;
+    let deadline = Instant::now() + Duration::from_secs(cli.tier.pick(300, 1700));
     let total = cases.len();
-    for case in &cases {
-        if Instant::now() > deadline {
-            capped = Some(format!("wall-clock cap after {execs} of {total} cases"));
-            break;
-        }
-        let out = run_case14(&tpl_a, &tpl_b, case);
-        execs += 1;
-        if !out.violations.is_empty() {
-            let again = run_case14(&tpl_a, &tpl_b, case);
-            let k1: Vec<&String> = out.violations.iter().map(|v| &v.0).collect();
-            let k2: Vec<&String> = again.violations.iter().map(|v| &v.0).collect();
-            if k1 != k2 {
-                machinery_error(&format!("non-deterministic case {case:?}: {k1:?} vs {k2:?}"));
+    let execs_a = std::sync::atomic::AtomicU64::new(0);
+    let skipped = std::sync::atomic::AtomicU64::new(0);
+    // cases are independent executions (own nodes, own runtimes, own feed): a few threads
+    let pool = rayon::ThreadPoolBuilder::new().num_threads(6).build().unwrap();
+    pool.install(|| {
+        use rayon::prelude::*;
+        use std::sync::atomic::Ordering::Relaxed;
+        cases.par_iter().for_each(|case| {
+            if Instant::now() > deadline {
+                skipped.fetch_add(1, Relaxed);
+                return;
             }
-        }
-        for (k, d) in out.violations {
-            rep.violation(&k, json!({"case": case, "d": d}));
-        }
-        rep.outcome(out.outcome);
-        if out.notifications >= 2 {
-            rep.nontrivial(digest(&format!("{case:?}")));
-        }
-        if execs % 53 == 9 {
-            rep.sample(json!({"case": case, "notifications": out.notifications}));
-        }
-    }
+            let out = run_case14(&tpl_a, &tpl_b, case);
+            let n = execs_a.fetch_add(1, Relaxed) + 1;
+            if !out.violations.is_empty() {
+                let again = run_case14(&tpl_a, &tpl_b, case);
+                let k1: Vec<&String> = out.violations.iter().map(|v| &v.0).collect();
+                let k2: Vec<&String> = again.violations.iter().map(|v| &v.0).collect();
+                if k1 != k2 {
+                    machinery_error(&format!("non-deterministic case {case:?}: {k1:?} vs {k2:?}"));
+                }
+            }
+            for (k, d) in out.violations {
+                rep.violation(&k, json!({"case": case, "d": d}));
+            }
+            rep.outcome(out.outcome);
+            if out.notifications >= 2 {
+                rep.nontrivial(digest(&format!("{case:?}")));
+            }
+            if n % 53 == 9 {
+                rep.sample(json!({"case": case, "notifications": out.notifications}));
+            }
+        });
+    });
+    let execs = execs_a.load(std::sync::atomic::Ordering::Relaxed);
+    let sk = skipped.load(std::sync::atomic::Ordering::Relaxed);
+    let capped = if sk > 0 { Some(format!("wall-clock cap: {sk} of {total} cases not run")) } else { None };
     rep.set("states", execs);
     rep.set("transitions", execs * len as u64);
     rep.set("evaluations", execs);
@@ -1193,7 +1202,7 @@ fn c13(cli: &Cli) {
             }
         }
     }
-    let deadline = Instant::now() + Duration::from_secs(cli.tier.pick(55, 1500));
+    let deadline = Instant::now() + Duration::from_secs(cli.tier.pick(300, 1500));
     let mut execs = 0u64;
     let mut capped = None;
     let mut run = |case: &Case13, rep: &Report, execs: &mut u64| -> usize {
